@@ -98,7 +98,8 @@ PROPERTIES = {
     "C12": {
         "modules": ["contracts.core_models", "contracts.c13_types", "contracts.c06_ports", "contracts.c12_instances", "contracts.c12_register", "contracts.c08_temporaries", "contracts.c08_cleanup", "contracts.c12_actuals"],
         "level": "proof",
-        "explanation": "the structural half of the statement is decided function by function, each proved from the real source: (1) Entity._port_declarations emits exactly the declared ports, in declaration order, each line starting with the declared name and carrying the declared direction, and only returns when declared name == scope name (C06 contract, symbolic names); (2) cohdl.Entity.__init__ associates every formal with exactly the actual passed for it, rejects unknown names, missing actuals and incompatible actuals, and removes the default only from the object an instance output drives (a slice actual leaves the rest of its root initialised); (3) EntityInst._port_map / _generic_map list every formal once, in declaration order, with the text of its own actual for every order of the actuals dictionary; (4) VhdlAssembler.apply converts an entity template once (cache hit returns the converted entity, a new conversion is registered), declares its ports in order under their declared names, and gives every output port one buffer initialised with the port's default whenever it has one; (5) Library.from_top_entity lists every entity once, sub-entities before their users, over instantiation DAGs incl. shared templates.",
+        "explanation": "the structural half of the statement is decided function by function, each proved from the real source: (1) Entity._port_declarations emits exactly the declared ports, in declaration order, each line starting with the declared name and carrying the declared direction, and only returns when declared name == scope name (C06 contract, symbolic names); (2) cohdl.Entity.__init__ associates every formal with exactly the actual passed for it, rejects unknown names, missing actuals and incompatible actuals, and removes the default only from the object an instance output drives (a slice actual leaves the rest of its root initialised); (3) EntityInst._port_map / _generic_map list every formal once, in declaration order, with the text of its own actual for every order of the actuals dictionary; (4) VhdlAssembler.apply converts an entity template once (cache hit returns the converted entity, a new conversion is registered), declares its ports in order under their declared names, and gives every output port one buffer initialised with the port's default whenever it has one; (5) Library.from_top_entity lists every entity once, sub-entities before their users, over instantiation DAGs incl. shared templates; (6) _register_block / _register_context / on_block_exit attach to the innermost open block (stack depth 0-3); (7) ConvertInstance.apply keeps the assignment of an intermediate (or a slice of one) that is the actual of an instance port. BOUNDED: Entity.__init_subclass__ under inheritance (base / sibling / second-level classes adding ports in both orders): each class's declared and emitted interface is its inherited ports followed by its own, port dicts are not shared.",
+        "extra": ["contracts.c12_extra.interface_sweep"],
         "assumptions": COMMON_ASSUME + [
             "behavioural equivalence of instantiation and inlining 'for all input sequences' is the VHDL semantics of component instantiation with named association, given the structural facts above; it is not executed (no simulator)",
             "instantiation shapes are enumerated (<= 3 formals, <= 2 template ports per kind combination, 7 instantiation DAGs up to 4 entities); names, types and values are arbitrary within a shape",
